@@ -406,32 +406,48 @@ func (w *w3) checkRoutes() {
 		}
 	}
 	w.sim.Probe("c20.judged")
-	want := map[string]string{}
-	for k, v := range w.etcd.Snapshot(partitionLeasePrefix + "/") {
-		if rk, ok := leaseKeyToRouteKey(k); ok {
-			want[rk] = v
+	partDiff := func() string {
+		want := map[string]string{}
+		for k, v := range w.etcd.Snapshot(partitionLeasePrefix + "/") {
+			if rk, ok := leaseKeyToRouteKey(k); ok {
+				want[rk] = v
+			}
 		}
+		got := map[string]string{}
+		for _, r := range w.prouter.AllRoutes() {
+			got[fmt.Sprintf("%s:%d", r.Topic, r.Partition)] = r.BrokerID
+		}
+		return diffMaps(want, got)
 	}
-	got := map[string]string{}
-	for _, r := range w.prouter.AllRoutes() {
-		got[fmt.Sprintf("%s:%d", r.Topic, r.Partition)] = r.BrokerID
+	groupDiff := func() string {
+		wantG := map[string]string{}
+		for k, v := range w.etcd.Snapshot(groupLeasePrefix + "/") {
+			if g, ok := groupLeaseKeyToGroupID(k); ok {
+				wantG[g] = v
+			}
+		}
+		gotG := map[string]string{}
+		for _, r := range w.grouter.AllRoutes() {
+			gotG[r.GroupID] = r.BrokerID
+		}
+		return diffMaps(wantG, gotG)
 	}
-	if d := diffMaps(want, got); d != "" {
-		w.sim.Fail("C20", "partition-routes-diverged", "changes stopped %dms ago, yet the partition routing table differs from etcd: %s", w.cfg("settle_ms", 4000), d)
+	// "once changes stop" - and once the injected failures of the routers' own reads stop: every failed reload
+	// costs a router one reconnect delay (1 s) before it tries again, and up to nine such failures are injected.
+	// Convergence is demanded within a bounded time after the last change, not at one instant.
+	waited := 0
+	for ; waited < 12 && (partDiff() != "" || groupDiff() != ""); waited++ {
+		simrt.Sleep(2 * time.Second)
+	}
+	if waited > 0 {
+		w.sim.Probe("c20.converged-late")
+	}
+	if d := partDiff(); d != "" {
+		w.sim.Fail("C20", "partition-routes-diverged", "changes stopped %dms ago, yet the partition routing table differs from etcd: %s", w.cfg("settle_ms", 4000)+int64(waited)*2000, d)
 		return
 	}
-	wantG := map[string]string{}
-	for k, v := range w.etcd.Snapshot(groupLeasePrefix + "/") {
-		if g, ok := groupLeaseKeyToGroupID(k); ok {
-			wantG[g] = v
-		}
-	}
-	gotG := map[string]string{}
-	for _, r := range w.grouter.AllRoutes() {
-		gotG[r.GroupID] = r.BrokerID
-	}
-	if d := diffMaps(wantG, gotG); d != "" {
-		w.sim.Fail("C20", "group-routes-diverged", "changes stopped, yet the group routing table differs from etcd: %s", d)
+	if d := groupDiff(); d != "" {
+		w.sim.Fail("C20", "group-routes-diverged", "changes stopped %dms ago, yet the group routing table differs from etcd: %s", w.cfg("settle_ms", 4000)+int64(waited)*2000, d)
 	}
 }
 
